@@ -148,6 +148,10 @@ var usEdits = map[string][][]hist.Edit{
 	// object members that are containers with content of their own: deleting one and undoing the
 	// deletion has to bring the content back on every replica
 	"members": {{{K: "otext", Key: "k1", S: "ab"}}, {{K: "odel", Key: "k1"}}, {{K: "oarr", Key: "k1", V: 5}}},
+	// one update with a text edit and an object edit (a history entry of two operations), and the
+	// deletion of what that text edit typed; histories of this flavor are one step longer in the quick
+	// tier: type + set, quiescence, the peer deletes, two syncs, undo
+	"mixed2": {{{K: "tedit", I: 1, J: 0, S: "x"}, {K: "oset", Key: "k2", V: 9}}, {{K: "tedit", I: 1, J: 1, S: ""}}},
 }
 
 func runUSHistory(flavor string, steps []usStep) (kind, detail string, reuse bool) {
@@ -284,14 +288,19 @@ func runUndoSync(cfg *config) error {
 	if v := x["len"]; v != "" {
 		fmt.Sscanf(v, "%d", &maxLen)
 	}
-	flavors := []string{"object", "array", "text", "counter", "tree", "arraymove", "members"}
+	flavors := []string{"object", "array", "text", "counter", "tree", "arraymove", "members", "mixed2"}
 	if f := x["flavor"]; f != "" {
 		flavors = strings.Split(f, "+")
 	}
 	res.Rule = fmt.Sprintf("one evaluation = one history run to quiescence; exhaustive: every sequence over {edit, undo, redo, sync} x 2 clients (plus at most one full quiescence step) of length <= %d with <= 3 edits per client, <= 2 undo/redo, >= 1 undo, first step by client 0, per flavor", maxLen)
 	perKind := map[string]int{}
+	globalMaxLen := maxLen
 	for _, flavor := range flavors {
 		ne := len(usEdits[flavor])
+		maxLen := globalMaxLen
+		if flavor == "mixed2" && maxLen < 6 {
+			maxLen = 6
+		}
 		var cur []usStep
 		usedQ := false
 		var rec func(edits [2]int, ur int, hasUndo bool)
